@@ -69,11 +69,16 @@ Definition set_reserved (s : rstack) (l : list (Z * Z)) : rstack :=
 
 Definition is_reserved (r : Z) (s : rstack) : bool := memZ r (map fst (reserved s)).
 
-(* def push(self, reg) *)
+(* def push(self, reg)   (as repaired by /repo commit d11e3b9: a reserved register is never pushed
+   back, whatever its sign; before, the reservation test only applied to indices >= 0) *)
 Definition push (r : Z) (s : rstack) : rstack :=
-  if (is_reserved r s || negb (memZ r (allocatable s))) && (0 <=? r) then s
+  if is_reserved r s || ((0 <=? r) && negb (memZ r (allocatable s))) then s
   else set_available s (remove_first r (available s) ++ [r]).
   (* `if index in available: available.remove(index)`; remove_first is the identity when absent *)
+(* the code before d11e3b9 (kept for the recorded refutation C19_infinite_preassigned_refuted) *)
+Definition push_old (r : Z) (s : rstack) : rstack :=
+  if (is_reserved r s || negb (memZ r (allocatable s))) && (0 <=? r) then s
+  else set_available s (remove_first r (available s) ++ [r]).
 
 (* def pop(self, reg_type) *)
 Definition pop (s : rstack) : res (Z * rstack) :=
@@ -104,10 +109,17 @@ Definition unreserve_register (r : Z) (s : rstack) : res rstack :=
 (* def include_register(self, reg) *)
 Definition include_register (r : Z) (s : rstack) : rstack :=
   push r (if memZ r (allocatable s) then s else set_allocatable s (allocatable s ++ [r])).
-(* def exclude_register(self, reg) *)
-Definition exclude_register (r : Z) (s : rstack) : rstack :=
+(* def exclude_register(self, reg)   (as repaired by d11e3b9: an "infinite" register already used in
+   the input is reserved for good and fresh infinite registers start above it) *)
+Definition exclude_register_old (r : Z) (s : rstack) : rstack :=
   let s1 := set_available s (remove_first r (available s)) in
   set_allocatable s1 (remove_first r (allocatable s1)).
+Definition exclude_register (r : Z) (s : rstack) : rstack :=
+  let s0 := if r <? 0
+            then mkStack (allocatable s) (Z.max (next_inf s) (- r)) (* max(next, ~index + 1) *)
+                         (assoc_incr r (reserved s)) (available s) (allow_inf s)
+            else s in
+  exclude_register_old r s0.
 
 (* RegisterStack.get(allocatable_registers, allow_infinite=...) *)
 Definition stack_get (regs : list Z) (allow : bool) : rstack :=
@@ -275,9 +287,15 @@ Definition zero_consts (l : list sop) : list value :=
 
 (* RegisterAllocatableOperation.all_used_registers: allocated operand/result registers of the
    operations that carry RegisterAllocatedMemoryEffect *)
-Definition used_registers (fn : func) : list Z :=
+Definition used_registers_old (fn : func) : list Z :=
   dedupZ (somes (flat_map (fun o => if s_eff o then map (ty0 fn) (sop_results o ++ sop_operands o) else [])
                           (all_sops (fn_ops fn)))).
+(* all_used_registers(body) | all_preallocated_registers(body)   (commit 26a8b63): the allocated
+   registers of every operand, result and block argument of every operation and of the function's
+   block.  Every value id of the function is one of those, so this is every allocated type of fn_pre
+   (a Python set: each register once, order irrelevant because exclusions commute). *)
+Definition used_registers (fn : func) : list Z :=
+  dedupZ (somes (fn_pre fn) ++ used_registers_old fn).
 
 (* allocate_func (riscv: zero rule on; x86: off) on RegisterStack.get(pool, allow_infinite) *)
 Definition mk_cfg (zr : bool) (fn : func) : cfg := mkCfg zr (zero_consts (all_sops (fn_ops fn))).
@@ -285,3 +303,22 @@ Definition init_state (pool : list Z) (allow : bool) (fn : func) : astate :=
   mkA (ty0 fn) (fold_left (fun s r => exclude_register r s) (used_registers fn) (stack_get pool allow)).
 Definition allocate_func (zr : bool) (pool : list Z) (allow : bool) (fn : func) : res astate :=
   allocate_block (mk_cfg zr fn) (fn_ops fn) (init_state pool allow fn).
+
+(* ---------------------------------------------------------------------------------------------- *)
+(* the allocator BEFORE the repairs d11e3b9 / 26a8b63 (straight-line fragment), kept only for the two
+   recorded refutations in Props/C19.v *)
+Definition free_value_old (v : value) (a : astate) : astate :=
+  match ty a v with Some r => set_stk a (push_old r (stk a)) | None => a end.
+Definition allocate_sop_old (c : cfg) (o : sop) (a : astate) : res astate :=
+  do a1 <- fold_res (fun p a => allocate_values_same_reg [fst p; snd p] a) (s_io o) a;
+  do a2 <- fold_res (allocate_value c) (s_outs o) a1;
+  let a3 := fold_left (fun a v => free_value_old v a) (rev (s_outs o)) a2 in
+  fold_res (allocate_value c) (s_ins o) a3.
+Definition stack_get_old (regs : list Z) (allow : bool) : rstack :=
+  fold_left (fun s r => push_old r (if memZ r (allocatable s) then s else set_allocatable s (allocatable s ++ [r])))
+            regs (mkStack [] 0 [] [] allow).
+Definition allocate_func_old (zr : bool) (pool : list Z) (allow : bool) (pre : list (option Z)) (sl : list sop)
+  : res astate :=
+  let fn := mkFunc pre (map Simple sl) in
+  fold_res (allocate_sop_old (mk_cfg zr fn)) (rev sl)
+    (mkA (ty0 fn) (fold_left (fun s r => exclude_register_old r s) (used_registers_old fn) (stack_get_old pool allow))).
